@@ -496,7 +496,9 @@ pub fn decode_sd(data: &[u8], with_fault: bool) -> SdCase {
             _ => BlockSel::Frac(d.u16()),
         };
         let n = |d: &mut Dec| d.pick(&[1u8, 1, 1, 2, 3, 8, 64]);
-        calls.push(match d.u8() % 12 {
+        calls.push(match d.u8() % 13 {
+            // transfers that start behind the last block, or on one of the last blocks and run over the end
+            12 => SdCall::Beyond { write: d.bool(), past: d.u8(), n: 1 + d.u8() % 3, seed: d.u16() as u32 },
             0 | 1 | 2 => SdCall::Read { block: bs(&mut d), n: n(&mut d) },
             3 | 4 | 5 | 6 => SdCall::Write { block: bs(&mut d), n: n(&mut d), seed: d.u16() as u32 },
             7 | 8 => SdCall::ReadBack { which: d.u16(), n: n(&mut d) },
